@@ -603,6 +603,125 @@ def run_C16(pid, tier, seed, model_ok=True):
                 dist={'pairs': evals}, extras=extras, traces=evals)
 
 
+
+# ------------------------------------------------------------------ C11 (schedules)
+def sched_orders(a, n0=8, maxn=None):
+    """all interleavings: thread 1 has `a` acquisitions, thread 0 up to n0; returns order strings"""
+    import itertools
+    outs = []
+    for pos in itertools.combinations_with_replacement(range(n0 + 1), a):
+        o = []
+        for j in range(n0 + 1):
+            o += ['1'] * sum(1 for p in pos if p == j)
+            if j < n0:
+                o.append('0')
+        o += ['0'] * 10 + ['1'] * 10
+        outs.append(','.join(o))
+    return outs
+
+
+def run_C11(pid, tier, seed, model_ok=True):
+    rnd = random.Random(seed)
+    ctx = Ctx(seed=seed)
+    work = os.path.join(CACHE, 'work-%s-%d' % (pid, os.getpid()))
+    try:
+        al = gen.Alphabet(ctx)
+        states = ['boot1', 'good1boot2', 'good1boot2pend3', 'good1', 'good1pend2', 'boot2pend3']
+        upd = {
+            'u1': op_update(ctx, 1), 'u2': op_update(ctx, 2), 'u3': op_update(ctx, 3),
+            'u3rb2': op_update(ctx, 3, rb=[2]), 'u2rb1': op_update(ctx, 2, rb=[1]), 'rb2': op_update_nopatch(rb=[2]),
+            'udl2': op_update(ctx, 2, dl='err'),
+        }
+        others = {
+            'fail': (['op failure'], 1), 'ok': (['op success'], 1), 'q': (['op nextnum'], 1),
+            'fail_q': (['op failure', 'op nextnum'], 2), 'ok_q': (['op success', 'op nextpath'], 2),
+            'ck2': ([op_check(ctx, 2)], 3), 'ck3rb2': ([op_check(ctx, 3, rb=[2])], 4),
+            's_fail': (['op start', 'op failure'], 2), 'upd': ([op_update(ctx, 2)], 2),
+        }
+        if tier == 'quick':
+            ukeys = ['u1', 'u2', 'u3rb2', 'rb2']
+            okeys = ['fail', 'ok', 'fail_q', 'ok_q', 'ck2', 's_fail', 'upd']
+        else:
+            ukeys = list(upd)
+            okeys = list(others)
+        hs = []
+        meta = {}
+        for stt in states:
+            for uk in ukeys:
+                for ok in okeys:
+                    oops, acq = others[ok]
+                    orders = sched_orders(min(acq, 2 if tier == 'quick' else 3))
+                    if tier == 'quick' and len(orders) > 12:
+                        orders = rnd.sample(orders, 12)
+                    for oi, order in enumerate(orders):
+                        name = 'c11_%s_%s_%s_%d' % (stt, uk, ok, oi)
+                        lines = [al.init] + al.seq(PFX[stt])
+                        sched = ['t0 ' + upd[uk]] + ['t1 ' + x for x in oops] + ['order ' + order]
+                        tail = ['op nextnum', 'op nextpath', 'op curnum', 'op kill', al.init, 'op nextnum', 'op start', 'op curnum']
+                        hs.append((name, lines + sched + tail))
+                        meta[name] = (len(lines), upd[uk], oops, order)
+        header = ctx.header()
+        model, impl, extras = run_both(header, hs, work, impl_only=not model_ok)
+        opsof = dict(hs)
+        divs, fails = [], []
+        if model_ok:
+            for (h, idx, ml, il) in diff_traces(model, impl):
+                divs.append((h, idx, ml, il, opsof[h], header))
+        distinct = set()
+        evals = 0
+        samples = []
+        for name, ops in hs:
+            tr = impl.get(name)
+            if tr is None:
+                continue
+            npre, uop, oops, order = meta[name]
+            evals += 1
+            sts = [parse_line(l) for l in tr]
+            if len(sts) != npre + 1 + 8:
+                extras.append('impl trace of %s has %d lines' % (name, len(sts)))
+                continue
+            pre, post = sts[npre - 1], sts[npre]
+            distinct.add((state_key(pre), uop, tuple(oops), post['out']))
+            ps = pstate(post)
+            for slot in ('nb', 'lb', 'cb'):
+                if ps[slot] and ps[slot]['num'] in ps['bad']:
+                    fails.append((name, npre, 'C11: after the interleaving patch %d is banned AND is the %s patch (outputs %s)' % (ps[slot]['num'], slot, post['out']), ops, header))
+            # C01 on everything handed out after the interleaving
+            tail_ops = [gen.parse_op(o) for o in ops[npre + len(oops) + 2:]]
+            tail_sts = sts[npre + 1:]
+            full_ops = [gen.parse_op(o) for o in ops[:npre]] + [dict(kind='sched', raw='sched')] + tail_ops
+            for (idx, msg) in monitors.mon_C01(ctx, full_ops, sts):
+                fails.append((name, idx, msg, ops, header))
+            # C03: the last good patch survives unless something in the interleaving concerns it
+            plb = pstate(pre)['lb']
+            if plb is not None and pre['arts'].get(plb['num'], '').startswith('F%d.' % plb['size']):
+                k = plb['num']
+                u = gen.parse_op(uop)
+                conc = k in monitors.listed(u) or (u['resp'] and u['resp']['patch'] and u['resp']['patch']['num'] == k)
+                pcb = pstate(pre)['cb']
+                for o in oops:
+                    po = gen.parse_op(o)
+                    if po['kind'] == 'success' and pcb and pcb['num'] != k:
+                        conc = True
+                    if po['kind'] in ('failure', 'start'):
+                        conc = True
+                    if po['kind'] in ('check', 'update') and (k in monitors.listed(po) or (po['resp'] and po['resp']['patch'] and po['resp']['patch']['num'] == k and po['kind'] == 'update')):
+                        conc = True
+                if not conc:
+                    if num(ps['lb']) != k or post['arts'].get(k) != pre['arts'].get(k):
+                        fails.append((name, npre, 'C11/C03: interleaving lost the last good patch %d (lb=%s, artifact %s)' % (k, num(ps['lb']), post['arts'].get(k)), ops, header))
+            if len(samples) < 5 and rnd.random() < 0.01:
+                samples.append({'history': name, 'sched': ops[npre:npre + len(oops) + 2], 'result': tr[npre][:200]})
+        if not samples and hs:
+            samples.append({'history': hs[0][0], 'ops': hs[0][1][:12]})
+        return dict(evaluations=evals, distinct=len(distinct), samples=samples, divergences=divs, monitor_fail=fails,
+                    rule='every interleaving (at config-lock granularity, scheduler-controlled real threads) of one update (7 responses) with 1-2 calls of another thread (9 variants) from 6 states with a boot in flight or just finished; model runs the same block order; non-trivial = distinct (state, update, other calls, outputs)',
+                    dist={'schedules': evals}, extras=extras, traces=len(impl))
+    finally:
+        ctx.cleanup()
+        shutil.rmtree(work, ignore_errors=True)
+
+
 def mk(build, mons, trig, rule, **kw):
     d = dict(mons=mons, run=lambda pid, tier, seed, model_ok=True: run_lifecycle(pid, tier, seed, build, mons, trig, rule, model_ok=model_ok))
     d.update(kw)
@@ -610,6 +729,7 @@ def mk(build, mons, trig, rule, **kw):
 
 
 PROPS = {
+    'C11': dict(mons=[], run=run_C11, assumptions=['interleavings at the granularity of config-mutex acquisitions (the only shared state is guarded by it); network callbacks run unlocked and touch no shared state']),
     'C16': dict(mons=[], run=run_C16,
                 assumptions=['zstd compress/decompress round trip is an oracle (hypothesis of C16_end_to_end); the suffix-array match search is covered only through wf_matches of what it emits']),
     'C03': mk(build_C03, [monitors.mon_C03, monitors.mon_C01], trig_life,
